@@ -3,7 +3,7 @@
 (* Life cycle of a VM: runs and clears (property C17).                     *)
 (*                                                                         *)
 (* The residue of a VM is what a run leaves behind and the next run finds: *)
-(*   [stack, calls, globals, objects, upvals, allocated, next_gc]          *)
+(*   [stack, calls, globals, objects, upvals, allocated, next_gc, live]    *)
 (* (heights of the value stack and the call stack, number of global slots, *)
 (* live objects, open upvalues, accounted bytes, collection threshold).    *)
 (* An outcome is the digest of a run's observation (globals, host calls,   *)
@@ -23,7 +23,7 @@ VARIABLE st     \* [clean: the VM is new or was just cleared, seen: program -> [
 
 Fresh(r) == r.stack = 0 /\ r.calls = 0 /\ r.globals = 0 /\ r.objects = 0 /\ r.upvals = 0 /\ r.allocated = 0
 NoSeen == [p \in {} |-> 0]
-NoLast == [p |-> "", out |-> ""]
+NoLast == [p |-> "", out |-> "", live |-> 0]
 New == [clean |-> TRUE, seen |-> NoSeen, last |-> NoLast]
 
 \* clearing gives the residue of a new VM, including the collection threshold
@@ -33,14 +33,17 @@ Run(s, p, out, res, fout, fres) ==
      /\ s.clean => (out = fout /\ res = fres)
      \* repeating the same run gives the same outcome every time
      /\ s.last.p = p => out = s.last.out
+     \* ... and does not eat memory: once the VM has settled after the run (the host released what it created, a
+     \* collection ran) no more bytes are accounted for than after the previous run of the same program
+     /\ s.last.p = p => res.live <= s.last.live
      \* repeating a run does not use up stack or call-stack space
      /\ p \in DOMAIN s.seen => (res.stack <= s.seen[p].stack /\ res.calls <= s.seen[p].calls)
-  THEN {[s EXCEPT !.clean = FALSE, !.last = [p |-> p, out |-> out],
+  THEN {[s EXCEPT !.clean = FALSE, !.last = [p |-> p, out |-> out, live |-> res.live],
                   !.seen = [q \in (DOMAIN s.seen) \cup {p} |-> IF q = p THEN [stack |-> res.stack, calls |-> res.calls] ELSE s.seen[q]]]}
   ELSE {}
 
 \* model-checking configuration: abstract residues
-Res(a, b) == [stack |-> a, calls |-> b, globals |-> 0, objects |-> 0, upvals |-> 0, allocated |-> 0, next_gc |-> 100]
+Res(a, b) == [stack |-> a, calls |-> b, globals |-> 0, objects |-> 0, upvals |-> 0, allocated |-> 0, next_gc |-> 100, live |-> 0]
 Init == st = New
 Next == \/ st' \in Clear(st, Res(0, 0), Res(0, 0))
         \/ \E p \in Progs, a \in 0..2, b \in 0..1 : st' \in Run(st, p, "o", Res(a, b), "o", Res(a, b))
